@@ -381,7 +381,7 @@ func Main(t *testing.T, e *Engine) {
 	// Above hashCap distinct hashes a worker reports only the 1/64 sample
 	// (h&63==0); the driver then counts the union over that sample, which is a
 	// lower bound of the true distinct count.
-	const hashCap = 40000
+	const hashCap = 400000
 	out.Sampled = len(traces) > hashCap
 	emit := func(m map[uint64]struct{}) []string {
 		var l []string
